@@ -585,4 +585,115 @@ theorem decHists_enc_split_v1 (fl : Bool) (xs : List RefHist) (h : ∀ x ∈ xs,
       decHistsV1_body fl first ⟨hf.1, hf.2.2.1⟩ _ (fun x hx => h x (List.mem_filter.mp hx).1)]
     rfl
 
+/-! ## histograms V2 -/
+
+/-- the encoder loop as the V2 decoder sees it: state = `(prevRef, prevST)`, `none` before the first
+    histogram (whose ref/t/st header has already been read); `f` is the first sample. -/
+def encD (fl : Bool) (f : RefHist) (s : Option (Nat × Int)) (x : RefHist) : Bytes :=
+  match s with
+  | none => encHist fl x.h
+  | some (prevRef, prevST) =>
+    putVarint (wrap64 (toI64 x.ref - toI64 prevRef)) ++ putVarint (wrap64 (x.t - f.t)) ++
+      writeSTMarker x.st f.st prevST ++ encHist fl x.h
+
+def nextD (f : RefHist) (s : Option (Nat × Int)) (x : RefHist) : Option (Nat × Int) :=
+  match s with
+  | none => some (f.ref, f.st)
+  | some _ => some (x.ref, x.st)
+
+def outD (f : RefHist) (s : Option (Nat × Int)) (x : RefHist) : Option RefHist :=
+  match s with
+  | none => some ⟨f.ref, f.st, f.t, x.h⟩
+  | some _ => some x
+
+theorem encAll_V2_rest (fl : Bool) (f : RefHist) (ys : List RefHist) :
+    ∀ (c : V2St) (p : Nat × Int), c.firstT = f.t → c.firstST = f.st → c.prevRef = p.1 → c.prevST = p.2 →
+      encAll (encHistItemV2 fl) (fun s x => nextV2 s x.ref x.st x.t) (some c) ys
+        = encAll (encD fl f) (nextD f) (some p) ys := by
+  induction ys with
+  | nil => intros; rfl
+  | cons y ys ih =>
+    intro c p h1 h2 h3 h4
+    obtain ⟨p1, p2⟩ := p
+    simp only at h3 h4
+    simp only [encAll, encHistItemV2, encD, nextV2, nextD, h1, h2, h3, h4]
+    congr 1
+    exact ih _ (y.ref, y.st) rfl rfl rfl rfl
+
+theorem outAll_D_some (f : RefHist) (ys : List RefHist) :
+    ∀ p, outAll (outD f) (nextD f) (some p) ys = ys := by
+  induction ys with
+  | nil => intro p; rfl
+  | cons y ys ih => intro p; simp [outAll, outD, nextD, ih]
+
+theorem stepHistV2_enc (fl : Bool) (f : RefHist) (s : Option (Nat × Int)) (x : RefHist)
+    (h : RefHistWF fl x) (rest : Bytes) :
+    stepHistV2 fl f.ref f.t f.st s (encD fl f s x ++ rest) = .ok (nextD f s x, outD f s x, rest) := by
+  obtain ⟨h1, h2, h3, h4⟩ := h
+  cases s with
+  | none =>
+    unfold stepHistV2 encD nextD outD
+    simp only [bind, Except.bind, pure, Except.pure]
+    rw [decHist_enc fl _ h4]
+    simp only
+    rw [finishHist_wf fl _ h4]
+    simp only [Option.map]
+  | some p =>
+    obtain ⟨prevRef, prevST⟩ := p
+    unfold stepHistV2 encD nextD outD
+    simp only [List.append_assoc, bind, Except.bind, pure, Except.pure]
+    rw [decVarint_put (wrap64_I64 _)]
+    simp only
+    rw [decVarint_put (wrap64_I64 _)]
+    simp only
+    rw [readSTMarker_write _ _ _ h2]
+    simp only
+    rw [decHist_enc fl _ h4]
+    simp only
+    rw [finishHist_wf fl _ h4]
+    simp only [Option.map]
+    rw [ref_delta_roundtrip_i _ h1, time_delta_roundtrip _ h3]
+
+theorem encD_ne_nil (fl : Bool) (f : RefHist) (s : Option (Nat × Int)) (x : RefHist) : encD fl f s x ≠ [] := by
+  cases s with
+  | none => exact encHist_ne_nil fl _
+  | some p => unfold encD; simp only [List.append_assoc]; exact putVarint_append_ne_nil _ _
+
+theorem decHists_enc_v2 (fl : Bool) (xs : List RefHist) (h : ∀ x ∈ xs, RefHistWF fl x) :
+    decHists fl (encHistsV2 fl xs) = .ok xs := by
+  unfold decHists encHistsV2
+  have ht1 : ¬ (tHistV2 fl = tHist fl ∨ tHistV2 fl = tCustomHist fl) := by cases fl <;> decide
+  simp only
+  rw [if_neg ht1, if_pos trivial]
+  cases xs with
+  | nil => simp [encAll, decHistsV2, liftErr]
+  | cons f rest =>
+    have hf := h f (by simp)
+    obtain ⟨hf1, hf2, hf3, hf4⟩ := hf
+    have henc : encAll (encHistItemV2 fl) (fun s x => nextV2 s x.ref x.st x.t) none (f :: rest)
+        = putVarint (toI64 f.ref) ++ (putVarint f.t ++ (putVarint f.st ++ encAll (encD fl f) (nextD f) none (f :: rest))) := by
+      simp only [encAll, encHistItemV2, encD, nextV2, nextD, List.append_assoc]
+      congr 4
+      exact encAll_V2_rest fl f rest _ (f.ref, f.st) rfl rfl rfl rfl
+    rw [henc]
+    unfold decHistsV2
+    rw [if_neg (by
+      intro hc
+      have := putVarint_append_ne_nil (toI64 f.ref) (putVarint f.t ++ (putVarint f.st ++ encAll (encD fl f) (nextD f) none (f :: rest)))
+      cases hE : putVarint (toI64 f.ref) ++ (putVarint f.t ++ (putVarint f.st ++ encAll (encD fl f) (nextD f) none (f :: rest))) with
+      | nil => exact this hE
+      | cons a b => rw [hE] at hc; simp at hc)]
+    rw [decVarint_put (toI64_I64 _)]
+    simp only [bind, Except.bind]
+    rw [decVarint_put hf3]
+    simp only
+    rw [decVarint_put hf2]
+    simp only
+    rw [toU64_toI64 hf1]
+    have := loopFuel_encAll (stepHistV2 fl f.ref f.t f.st) (encD fl f) (nextD f) (outD f)
+      (fun _ => True) (RefHistWF fl) (fun s x r _ hx => stepHistV2_enc fl f s x hx r) (fun _ _ _ _ => trivial)
+      (fun s x _ _ => encD_ne_nil fl f s x) (f :: rest) none _ trivial h (Nat.le_refl _)
+    rw [this]
+    simp only [outAll, outD, nextD, outAll_D_some, liftErr, List.singleton_append]
+
 end Prom.Record
